@@ -4,6 +4,7 @@ import ast
 from .. import rules_cxx as rc
 from .. import rules_pyx as rp
 from ..parse_model import ParseModel
+from .. import logic
 from ..core import AnalysisError, enclosing_function, qualname_of, src
 from ..pysym import SymExec, show, argof
 from ..rules_pyx import bind_args, N, C, A
@@ -53,6 +54,25 @@ def r_label_recovery(repo, rep, R='R12.4'):
                 match_ret.append(out == 'return' and st.ret == elem)
             elif out == 'return' and not exited:
                 unk_early.append(show(st.ret))
+    if n_match == 0:
+        # the same search spelt with next(): rule = next((r for r in rules(x, y) if r.cat == target), None)
+        for st, out in paths:
+            if out != 'return' or st.ret is None:
+                continue
+            r = st.ret
+            if r[0] == 'call' and r[1] == N('next') and len(r[2]) == 2 and r[2][1] == C(None) and r[2][0][0] in ('genexp', 'listcomp') and len(r[2][0][2]) == 1:
+                g = r[2][0]
+                it_, filt = g[2][0]
+                el = g[1]
+                okf = it_ == it and el[0] == 'elem' and el[1] == it_ and len(filt) == 1 and filt[0] in (
+                    ('cmp', '==', A(el, 'cat'), N(target)), ('cmp', '==', N(target), A(el, 'cat')))
+                found_ = logic.implied([(c, pol) for c, pol, _ in st.conds], logic.neg(('atom', ('isnone', r))))
+                if okf and found_:
+                    n_match += 1
+                    match_ret.append(True)
+                elif okf:
+                    n_match += 1
+                    match_ret.append(False)
     rep.check(n_match >= 1 and all(match_ret), R, w, 'guess:return-match',
               'when a rule result has the target category that very result is returned',
               'a matching rule result is not returned (paths with a match: %d, returning it: %d)'
